@@ -76,6 +76,10 @@ def call_model(I, fn, args, kwargs):
         if isinstance(x, SymArray):
             return SymArray([call_model(I, abs, [i], {}) if is_sym(i) else abs(i) for i in x.items], x.isfloat)
         s = to_sym(x)
+        if s.kind == "fp":
+            return Sym(z3.fpAbs(s.z), "fp")
+        if s.kind == "bv":
+            return Sym(z3.If(s.z >= 0, s.z, -s.z), "bv")
         z = as_real(s) if s.kind == "real" else as_int(s)
         return Sym(z3.If(z >= 0, z, -z), "real" if s.kind == "real" else "int")
     if fn is np.abs or fn is np.absolute or fn is np.fabs:
